@@ -126,14 +126,14 @@ partial def loop (h : IO.FS.Stream) (sel : List String) (c : Cur) : IO Unit := d
     let c := match parseRaw line with
       | some rl => { c with res := ResMap.feed c.res (c.nlines + 1) rl, job := JobMap.feed c.job (c.nlines + 1) rl,
                                sig := SigMap.feed c.sig (c.nlines + 1) rl,
-                               sig2 := SigMap2.feed (c.params.kind == "plain" && (c.params.queues == ["pers"] || c.params.queues == ["persprio"])) c.sig2 (c.nlines + 1) rl,
+                               sig2 := SigMap2.feed (c.params.kind == "plain" && (c.params.queues == ["pers"] || c.params.queues == ["persprio"] || c.params.queues == ["dist"] || c.params.queues == ["distprio"])) c.sig2 (c.nlines + 1) rl,
                                metr := MetrMap.feed c.params.kind c.metr (c.nlines + 1) rl,
                                trim := TrimMap.feed c.trim (c.nlines + 1) rl,
                                reap := ReapMap.feed c.params.minIdle c.reap (c.nlines + 1) rl,
                                disp := DispMap.feed c.disp (c.nlines + 1) rl,
                                race := (if sel.contains "C19" then RaceMap.feed c.race rl else c.race),
                                ack := AckMap.feed c.ack (c.nlines + 1) rl,
-                               wake := WakeMap.feed (c.params.kind == "plain" && (c.params.queues == ["pers"] || c.params.queues == ["persprio"])) c.wake (c.nlines + 1) rl,
+                               wake := WakeMap.feed (c.params.kind == "plain" && (c.params.queues == ["pers"] || c.params.queues == ["persprio"] || c.params.queues == ["dist"] || c.params.queues == ["distprio"])) c.wake (c.nlines + 1) rl,
                                pool := PoolMap.feed c.pool (c.nlines + 1) rl }
       | none => c
     match parseObs line with
